@@ -1,0 +1,39 @@
+//go:build verif
+
+// Contracts for package services/replay, read by /verif/engine (govc). Comments only.
+package replay
+
+// ---------------------------------------------------------------- service.go: reading a batch recording (C18)
+// "replay reproduces the recording": a batch recording is an archive with one entry per recorded
+// batch query, written in query order; replay pairs the readers with the task's batch collectors
+// by position. So reader i must read entry i of the archive as it was written -- the archive's own
+// order, untouched.
+// Assumed (trusted): os/zip calls touch no modelled memory; zip.NewReader returns an archive whose
+// entries are non-nil; what Open returns is a function of the entry.
+//@ func =os.Open
+//@   trusted
+//@   modifies nothing
+//@   ensures result1 == nil ==> result0 != nil
+//@ func =(*os.File).Stat
+//@   trusted
+//@   modifies nothing
+//@   ensures result1 == nil ==> result0 != nil
+//@ func =(io/fs.FileInfo).Size
+//@   trusted
+//@   pure
+//@ func =archive/zip.NewReader
+//@   trusted
+//@   modifies nothing
+//@   ensures result1 == nil ==> result0 != nil && fresh(result0) && forall k int :: 0 <= k && k < len(result0.File) ==> result0.File[k] != nil
+//@ func =(*archive/zip.File).Open
+//@   trusted
+//@   modifies nothing
+//@   ensures result0 == uf("zipEntryReader", io.ReadCloser, f)
+//@ func (fileSource).BatchReaders
+//@   props C18
+//@   ensures [reader-i-reads-entry-i] result1 == nil ==> called(NewReader) && len(result0) == len(callresult(NewReader, 0).File)
+//@       && forall k int :: 0 <= k && k < len(result0) ==> result0[k] == uf("zipEntryReader", io.ReadCloser, callresult(NewReader, 0).File[k])
+//@   loop 1
+//@     modifies elems(rcs)
+//@     invariant 0 <= _i && _i <= len(rcs) && len(rcs) == len(archive.File) && archive != nil
+//@     invariant forall k int :: 0 <= k && k < _i ==> rcs[k] == uf("zipEntryReader", io.ReadCloser, archive.File[k])
